@@ -128,6 +128,9 @@ def call(resolver, node, path, idm):
         return ("crash", "%s: %s" % (type(exc).__name__, exc))
 
 
+COMPS_DEEP = ("x", "*", "**", "..", "?")   # reduced component alphabet for patterns of 4 components
+
+
 def check_tree(t, shape, names, maxcomp, only=None, kind="user"):
     import anytree
 
@@ -135,7 +138,7 @@ def check_tree(t, shape, names, maxcomp, only=None, kind="user"):
     nodes = tree.build(m, tree.default_factory(kind), "topdown", names=list(names))
     idm = tree.IdMap(nodes)
     sep = "/"
-    pats = patterns_for(names, sep, maxcomp)
+    pats = patterns_for(names, sep, maxcomp) if maxcomp <= 3 else patterns_for(names, sep, maxcomp, COMPS_DEEP)
     res = {(ic, rx): anytree.Resolver("name", ignorecase=ic, relax=rx) for ic in (False, True) for rx in (False, True)}
     ctx = {"shape": shape, "names": list(names), "kind": kind}
     for start in range(m.n):
@@ -347,7 +350,8 @@ def replay(c):
                 print("history found by the cache explorer:", t.violations[0]["case"]["history"])
                 break
         return [v["why"] for v in t.violations]
-    check_tree(t, _tup(c["shape"]), tuple(c["names"]), 3, (c["start"], c["path"], c["ignorecase"]), c.get("kind", "user"))
+    check_tree(t, _tup(c["shape"]), tuple(c["names"]), 4 if len(c["path"].split("/")) > 4 or c["path"].count("/") >= 3 else 3,
+               (c["start"], c["path"], c["ignorecase"]), c.get("kind", "user"))
     return [v["why"] for v in t.violations]
 
 
@@ -360,6 +364,12 @@ def plan(tier):
             for s in tree.plane_trees(n):
                 for names in itertools.product(alphabet, repeat=n):
                     items.append((s, names, maxcomp))
+    # patterns of 4 components over a reduced alphabet (errors below wildcards need depth)
+    for n in range(1, 4 if tier == "quick" else 5):
+        for s in tree.plane_trees(n):
+            for names in itertools.product(("a", "b"), repeat=n):
+                if tier == "thorough" or len(set(names)) == 1 or n <= 2:
+                    items.append((s, names, 4))
     # node classes with their own truth value / value semantics
     for kind in ("falsy", "eqhash", "falsylight"):
         for n in range(1, 4 if tier == "quick" else 5):
